@@ -28,6 +28,7 @@ def catalogue(ctx: Any) -> Dict[str, Svc]:
         'S1': Svc('S1', T1, 'Alpha._http._tcp.local.', 'alpha.local.', 80, [V4A], []),
         'S1b': Svc('S1b', T1, 'Alpha._http._tcp.local.', 'alpha.local.', 81, [V4B], [], text=b'\x03a=2'),
         'S1c': Svc('S1c', T1, 'Alpha._http._tcp.local.', 'alpha2.local.', 80, [V4A], [V6B]),
+        'S1p': Svc('S1p', T1, 'Alpha._http._tcp.local.', 'alpha.local.', 8081, [V4A], []),
         'S2': Svc('S2', T1, 'Beta._http._tcp.local.', 'alpha.local.', 8080, [], [V6A]),
         'S3': Svc('S3', T2, 'Gamma._ipp._tcp.local.', 'gamma.local.', 631, [V4B], [V6B]),
         'S4': Svc('S4', '_printer._sub._ipp._tcp.local.', 'Delta._ipp._tcp.local.', 'delta.local.', 631, [], [V6A]),
@@ -60,6 +61,22 @@ def make(shape: Dict[str, Any]) -> Any:
             elif op == 'upd':
                 infos[s.name.lower()] = s.info()
                 zc.registry.async_update(infos[s.name.lower()])
+                live[s.name.lower()] = s
+            elif op == 'touch':
+                # answer a few queries first, so that whatever the service description memoises is filled
+                for qq in (Q(s.type, PTR), Q(s.name, SRV), Q(s.name, TXT), Q(s.server, A)):
+                    zc.query_handler.async_response([mk_query(loop.now_ms, [qq], [])], False)
+            elif op == 'inplace':
+                # the application changes the registered object itself and re-registers it
+                info = infos[s.name.lower()]
+                info.host_ttl, info.other_ttl, info.port = s.host_ttl, s.other_ttl, s.port
+                zc.registry.async_update(info)
+                live[s.name.lower()] = s
+            elif op == 'inplace-readd':
+                info = infos[s.name.lower()]
+                zc.registry.async_remove(info)
+                info.host_ttl, info.other_ttl, info.port = s.host_ttl, s.other_ttl, s.port
+                zc.registry.async_add(info)
                 live[s.name.lower()] = s
             else:
                 zc.registry.async_remove(infos.pop(s.name.lower()))
@@ -143,6 +160,8 @@ SCRIPTS = {
     'subtype': _s('reg:S3', 'reg:S4'),
     'upper': _s('reg:S5'),
     'empty': _s('reg:S1', 'unreg:S1'),
+    'inplace-update': _s('reg:S1', 'touch:S1', 'inplace:S1p'),
+    'inplace-readd': _s('reg:S1', 'touch:S1', 'inplace-readd:S1p'),
     'three': _s('reg:S1', 'reg:S2', 'reg:S3'),
 }
 QUESTIONS = {
@@ -165,7 +184,7 @@ QUICK = [
     ('unreg-one-of-two', 'a', []), ('update', 'srv', []), ('update', 'a', []), ('update', 'txt', []), ('update-host', 'a', []), ('update-host', 'a2', []),
     ('subtype', 'sub', []), ('subtype', 'ptr2', []), ('upper', 'ptr1', []), ('upper', 'a-eps', [('S5', 'A')]), ('upper', 'srv-eps', []),
     ('empty', 'ptr1', []), ('empty', 'enum', []), ('one', 'ptr1-up', []), ('one', 'a-up', []), ('one', 'ptr+srv', [('S1', 'SRV')]),
-    ('one', 'a+aaaa', []), ('three', 'ptr1+ptr2', [('S3', 'PTR')]), ('one', 'unreg-name', []),
+    ('one', 'a+aaaa', []), ('inplace-update', 'ptr1', []), ('inplace-update', 'srv', []), ('inplace-update', 'a', []), ('inplace-readd', 'ptr1', []), ('three', 'ptr1+ptr2', [('S3', 'PTR')]), ('one', 'unreg-name', []),
 ]
 
 
